@@ -48,18 +48,23 @@ def configs(tier, seed, salt=0):
     return cfgs
 
 
-def build(cfg):
+def build(cfg, upto=None):
     from amaranth_soc import wishbone
+    intrs = []
+
+    def add(arb, i):
+        it = wishbone.Interface(addr_width=cfg["aw"], data_width=cfg["dw"], granularity=cfg["igrans"][i],
+                                features=cfg["ifeats"][i], path=(f"i{i}",))
+        arb.add(it)
+        intrs.append(it)
     try:
         arb = wishbone.Arbiter(addr_width=cfg["aw"], data_width=cfg["dw"], granularity=cfg["agran"], features=cfg["afeat"])
-        intrs = []
-        for i in range(cfg["n"]):
-            it = wishbone.Interface(addr_width=cfg["aw"], data_width=cfg["dw"], granularity=cfg["igrans"][i],
-                                    features=cfg["ifeats"][i], path=(f"i{i}",))
-            arb.add(it)
-            intrs.append(it)
+        for i in range(cfg["n"] if upto is None else upto):
+            add(arb, i)
     except (ValueError, TypeError) as e:
         raise Refused(str(e))
+    if upto is not None:
+        return arb, intrs, lambda i: add(arb, i)
     return arb, intrs
 
 
